@@ -45,6 +45,8 @@ ALPHABET = {
     "AB": [["PS-A", row([16]), ], ["PS-B", row([8])]],
     "BA": [["PS-B", row([8])], ["PS-A", row([16])]],
     "all2": [["PS-A", row([10, 12])], ["PS-B", row([16, 8])], ["PS-C", row([6, 7])]],
+    # every station named, keys NOT in registration order (values() order is then not row order)
+    "all2p": [["PS-C", row([6, 7])], ["PS-A", row([10, 12])], ["PS-B", row([16, 8])]],
     "vacantC": [["PS-C", row([32])]],
     "long9": [["PS-A", row([8] * 9)]],
     "ints": [["PS-A", row([16], "int")], ["PS-B", row([24], "int")]],
@@ -56,7 +58,7 @@ ALPHABET = {
     "ragged": [["PS-A", row([8, 16])], ["PS-B", row([8])]],
 }
 MALFORMED = {"unknown": KeyError, "ragged": InvalidScheduleError}
-QUICK = ["empty", "A1", "A3", "AB", "BA", "all2", "vacantC", "long9", "ndarr", "unknown", "ragged"]
+QUICK = ["empty", "A1", "A3", "AB", "BA", "all2", "all2p", "vacantC", "long9", "ndarr", "unknown", "ragged"]
 THOROUGH = list(ALPHABET)
 
 SETUPS = {
